@@ -843,6 +843,11 @@ class Executor(Exec):
                 self.write(st, loc, VSeq(cur.comps, cur.ln - 1, cur.et, cur.kind))
                 return last
             raise Unsupported("list.pop(i)")
+        if name == "sort" and not args and isinstance(cur.et, TInt) and cur.kind == "list":
+            # x.sort(): x becomes sorted(x) (same list object)
+            from . import lib_models
+            self.write(st, loc, lib_models.sorted_model(self, st, cur, self.cur_line))
+            return VNone()
         if name == "extend" or name == "fromlist":
             other = args[0]
             if not isinstance(other, VSeq):
@@ -1299,6 +1304,9 @@ class Executor(Exec):
                 raise Unsupported(f"loop at line {getattr(s, 'lineno', 0)}: no invariant available")
             raise Unsupported(f"loop {ordinal} at line {getattr(s, 'lineno', 0)} of {c.key} has no invariant in the contract "
                               f"(the contract annotates loops {sorted(c.loops)})")
+        if c.loops[ordinal].get("unreached"):
+            raise Unsupported(f"loop {ordinal} at line {getattr(s, 'lineno', 0)} of {c.key}: the contract says this loop is not "
+                              "reached for the kind of argument it covers")
         return c.loops[ordinal]
 
     def s_For(self, s, st):
